@@ -6,7 +6,9 @@ CONSTANT Fine
 Twentieths == IF Fine THEN {Num(n, 20) : n \in -60..60} ELSE {Num(n, 20) : n \in {-40, -30, -24, -20, -10, 0, 5, 10, 20, 24, 30, 40}}
 Nums == Twentieths \cup {Num(10, 1), Num(2000001, 2), Num(2000003, 2), Num(-2000001, 2), Num(1000000, 1), Num(7, 8), Num(1001, 1000), Num(1002, 1000)}
 Texts == {TextV(<<>>), TextV(<<97>>), TextV(<<66>>), TextV(<<97, 98>>), TextV(<<49, 48>>), TextV(<<57>>), TextV(<<49, 46, 48>>),
-          TextV(<<65>>), TextV(<<98>>), TextV(<<110, 97, 110>>), TextV(<<78, 97, 78>>), TextV(<<105, 110, 102>>)}
+          TextV(<<65>>), TextV(<<98>>), TextV(<<110, 97, 110>>), TextV(<<78, 97, 78>>), TextV(<<105, 110, 102>>),
+          \* one number spelled in several ways: "1" beside "1.0", "1e1" beside "10", "09" beside "9" - whatever order the texts get, the laws hold
+          TextV(<<49>>), TextV(<<49, 101, 49>>), TextV(<<48, 57>>)}
 Days == IF Fine THEN {36525, 36526, 45291, 45292, 45350, 1, 2958465} ELSE {36526, 45291, 45292}
 Dates == {DateV(d, t) : d \in Days, t \in {0, 4210}} \cup {DayV(d) : d \in Days}
 NumUps == {[k |-> "numup", n |-> n, d |-> 20] : n \in {6, 24, -30, 5}} \cup {[k |-> "numup", n |-> 3, d |-> 1]}
